@@ -8,6 +8,7 @@
 #include <cstdlib>
 #include <fstream>
 #include <map>
+#include <cctype>
 #include <set>
 #include <unordered_set>
 #include <poll.h>
@@ -235,7 +236,18 @@ struct Explorer {
     std::ofstream f(path.str());
     f << "{\n \"property\": \"" << prop << "\",\n \"engine\": \"histmc\",\n \"plan\": \"" << p.name << "\",\n \"mask\": " << p.mask << ",\n \"what\": \"" << json_escape(what) << "\",\n \"ops\": [";
     for (size_t i = 0; i < ops.size(); ++i) f << (i ? "," : "") << "\n  " << op_ints(ops[i]);
-    f << "\n ],\n \"readable\": [";
+    f << "\n ],\n \"shapes\": {";
+    {
+      std::set<int> used; for (auto& o : ops) if (o.kind == OP_CREATE || o.kind == OP_MONITOR) used.insert(o.shape);
+      bool first = true;
+      for (int si : used) {
+        const Shape& sh = g_shapes[si];
+        f << (first ? "" : ",") << "\n  \"" << si << "\": [" << (int)sh.mock << ", " << (int)sh.fn << ", " << (int)sh.mk1 << ", " << (int)sh.mk2 << ", " << (int)sh.nwith << ", " << (int)sh.nse << ", " << (int)sh.seqar << ", "
+          << (int)sh.tform << ", " << (int)sh.tl << ", " << (int)sh.th << ", " << (int)sh.act << ", \"" << sh.clauses << "\"]";
+        first = false;
+      }
+    }
+    f << "\n },\n \"readable\": [";
     for (size_t i = 0; i < ops.size(); ++i) f << (i ? "," : "") << "\n  \"" << json_escape(op_str(ops[i])) << '"';
     f << "\n ]";
     if (hr && hr->first_bad >= 0) {
@@ -460,6 +472,43 @@ struct Explorer {
 
 using namespace hm;
 
+// Replay files carry the shape descriptors their operations refer to: shape numbers are private to one generated site table,
+// so they are re-mapped to the shapes of this binary by value. Returns false if a shape does not exist here.
+static bool remap_shapes(const std::string& s, std::vector<Op>& ops) {
+  size_t p = s.find("\"shapes\":");
+  if (p == std::string::npos) return false;
+  size_t end = s.find('}', p);
+  std::map<int, int> map_;
+  size_t q = p + strlen("\"shapes\":") - 1;
+  while ((q = s.find('"', q + 1)) != std::string::npos && q < end) {
+    size_t q2 = s.find('"', q + 1); if (q2 == std::string::npos || q2 > end) break;
+    std::string key = s.substr(q + 1, q2 - q - 1);
+    if (key == "shapes") { q = q2; continue; }
+    size_t lb = s.find('[', q2), rb = s.find(']', q2); if (lb == std::string::npos || rb == std::string::npos) break;
+    std::string body = s.substr(lb + 1, rb - lb - 1);
+    int v[11]; int n = 0; std::string clauses; size_t i = 0;
+    while (i < body.size()) {
+      if (body[i] == '"') { size_t j = body.find('"', i + 1); clauses = body.substr(i + 1, j - i - 1); i = j + 1; }
+      else if (isdigit((unsigned char)body[i]) || body[i] == '-') { size_t j = i + 1; while (j < body.size() && isdigit((unsigned char)body[j])) ++j; if (n < 11) v[n++] = atoi(body.substr(i, j - i).c_str()); i = j; }
+      else ++i;
+    }
+    int found = -1;
+    for (int k = 0; k < g_nshapes && n == 11; ++k) {
+      const Shape& sh = g_shapes[k];
+      if (sh.mock == v[0] && sh.fn == v[1] && sh.mk1 == v[2] && sh.mk2 == v[3] && sh.nwith == v[4] && sh.nse == v[5] && sh.seqar == v[6] && sh.tform == v[7] && sh.tl == v[8] && sh.th == v[9] && sh.act == v[10] && clauses == sh.clauses) { found = k; break; }
+    }
+    map_[atoi(key.c_str())] = found;
+    q = rb;
+  }
+  for (auto& o : ops) if (o.kind == OP_CREATE || o.kind == OP_MONITOR) {
+    auto it = map_.find(o.shape);
+    if (it == map_.end() || it->second < 0) return false;
+    o.shape = (int16_t)it->second;
+  }
+  return true;
+}
+
+static bool g_replay_unmappable = false;
 static std::vector<Op> read_replay_ops(const std::string& path, unsigned* mask) {
   std::ifstream f(path); std::stringstream ss; ss << f.rdbuf(); std::string s = ss.str();
   size_t mk = s.find("\"mask\":"); if (mk != std::string::npos && mask) *mask = (unsigned)strtoul(s.c_str() + mk + 7, nullptr, 10);
@@ -469,6 +518,8 @@ static std::vector<Op> read_replay_ops(const std::string& path, unsigned* mask) 
   for (auto& c : body) if (c == '[' || c == ']' || c == ',') c = ' ';
   std::istringstream in(body); Op op;
   while (read_op(in, op)) ops.push_back(op);
+  if (!remap_shapes(s, ops)) g_replay_unmappable = true;
+  // a site must exist for every (shape, slot) the history uses
   return ops;
 }
 
@@ -488,6 +539,8 @@ int main(int argc, char** argv) {
   if (!replay_path.empty()) {
     unsigned mask = F_ALL; std::vector<Op> ops = read_replay_ops(replay_path, &mask);
     if (ops.empty()) { fprintf(stderr, "no ops in %s\n", replay_path.c_str()); return 2; }
+    if (g_replay_unmappable) { fprintf(stderr, "%s refers to expectation shapes that this explorer's site table does not contain (or carries no shape descriptors): not replayable here\n", replay_path.c_str()); return 3; }
+    for (auto& o : ops) if ((o.kind == OP_CREATE || o.kind == OP_MONITOR) && !site_exists(o.shape, o.slot)) { fprintf(stderr, "%s needs a creation site (shape %d, slot %d) that this explorer does not contain: not replayable here\n", replay_path.c_str(), (int)o.shape, (int)o.slot); return 3; }
     HistoryResult hr = run_history(ops, mask, Guards{}, true);
     for (size_t k = 0; k < hr.steps.size(); ++k) {
       if (probe) continue;
